@@ -1142,10 +1142,15 @@ def bn(o, a, b):
 
 
 def exp_expr(rng, q):
-    """a constant expression (literals, + - * /, unary minus) whose value is q != 0"""
+    """a constant expression (literals, + - * /, unary minus) whose value is q (0 included: the
+    literal 0, and composite expressions that evaluate to 0)"""
     q = Fraction(q)
     forms = []
-    if q.denominator == 1 and q > 0:
+    if q == 0:
+        forms += [num("0"), bn("-", num("1"), num("1")), bn("-", bn("*", num("2"), num("3")), num("6")),
+                  bn("*", num("0"), num("3")), bn("-", num("0.5"), num("0.5")),
+                  bn("/", bn("-", num("2"), num("2")), num("3"))]
+    elif q.denominator == 1 and q > 0:
         n = q.numerator
         forms += [num(str(n)), num(str(n)), num(str(n)), bn("/", num(str(2 * n)), num("2")),
                   bn("-", bn("*", num("2"), num(str(n))), num(str(n)))]
@@ -1318,7 +1323,7 @@ class Gen:
         if depth <= 0 or rng.random() < 0.12:
             return self.atom(T, pos)
         opts = [("prod", 3.0), ("sum", 3.0), ("pow", 1.2), ("conv", 0.9), ("if", 0.9), ("lib", 1.6),
-                ("atom", 0.8)]
+                ("atom", 0.8), ("zpow", 0.45)]
         if not pos:
             opts += [("neg", 0.3), ("zero", 0.35)]
         r = rng.random() * sum(w for _, w in opts)
@@ -1341,6 +1346,15 @@ class Gen:
         if o == "sum":
             op = "+" if pos or rng.random() < 0.6 else "-"
             return self.site("sum", bn(op, self.gen(T, d, pos), self.gen(T, d, pos)), [2, 3], T)
+        if o == "zpow":
+            # a dimensionful thing raised to a constant that evaluates to 0 (dimensionless factor),
+            # or the whole expression raised to a constant that evaluates to 1
+            if rng.random() < 0.7:
+                f, F = self.free(d, True)
+                z = bn("^", f, exp_expr(rng, 0))
+                x = self.gen(T, d, pos)
+                return rng.choice([bn("*", x, z), bn("*", z, x), bn("/", x, z)])
+            return bn("^", self.gen(T, d, pos), exp_expr(rng, 1))
         if o == "pow":
             if not T and rng.random() < 0.4:
                 return bn("^", num(rng.choice(["2", "3", "1.5"])), self.gen({}, d, pos))
@@ -1754,6 +1768,20 @@ def _gen_statements(self, n):
 
 
 Gen.gen_statements = _gen_statements
+
+
+def has_zero_exponent(x):
+    """some power whose constant exponent evaluates to 0 (what is under it has no influence on the
+    dimension, so a unit swapped there does not make the program inconsistent)"""
+    if isinstance(x, (list, tuple)):
+        if len(x) == 4 and x[0] == "bin" and x[1] == "^":
+            try:
+                if const_eval(x[3]) == 0:
+                    return True
+            except Exception:
+                pass
+        return any(has_zero_exponent(y) for y in x)
+    return False
 
 
 def gen_program(rng, nstmts=None, start=0):
